@@ -401,10 +401,12 @@ fn eq(a: &Option<HitObject>, b: &Option<HitObject>) -> bool {
         (None, None) => true,
         (Some(a), Some(b)) => {
             a == b
+                && super::gen::same_samples(&a.samples, &b.samples)
                 && match (&a.kind, &b.kind) {
                     (HitObjectKind::Slider(x), HitObjectKind::Slider(y)) => {
                         x.path.expected_dist().map(f64::to_bits) == y.path.expected_dist().map(f64::to_bits)
                             && super::gen::same_control_points(x.path.control_points(), y.path.control_points())
+                            && super::gen::same_node_samples(&x.node_samples, &y.node_samples)
                     }
                     _ => true,
                 }
@@ -419,14 +421,14 @@ fn classify(got: &Option<HitObject>, want: &Option<HitObject>) -> &'static str {
         (Some(g), Some(w)) => {
             if std::mem::discriminant(&g.kind) != std::mem::discriminant(&w.kind) {
                 "kind-precedence"
-            } else if g.samples != w.samples {
+            } else if g.samples != w.samples || !super::gen::same_samples(&g.samples, &w.samples) {
                 "samples"
             } else {
                 match (&g.kind, &w.kind) {
                     (HitObjectKind::Slider(x), HitObjectKind::Slider(y)) => {
                         if !super::gen::same_control_points(x.path.control_points(), y.path.control_points()) {
                             "path-control-points"
-                        } else if x.node_samples != y.node_samples {
+                        } else if x.node_samples != y.node_samples || !super::gen::same_node_samples(&x.node_samples, &y.node_samples) {
                             "node-samples"
                         } else if x.new_combo != y.new_combo || x.combo_offset != y.combo_offset {
                             "combo"
